@@ -8,8 +8,11 @@
   here but in `Props/C18Schema.lean` (imported; its theorems are listed at the end of this file): the
   per-type field code that runs after the dispatch, as a schema-driven model of serde's derive
   (`Model/ContentSchema.lean`) — fixpoint, no duplicate keys, value preservation, key-order and
-  unknown-field independence for every schema and every JSON value; tied to the content types whose
-  (de)serialisation is derived by the `c18.schema` correspondence. Content types with hand-written
+  unknown-field independence for every well-formed schema and every JSON value; tied to the content
+  types whose (de)serialisation is derived by the `c18.schema` correspondence. At the end of THIS file:
+  the schemas extracted from the running code (`Generated.C18.schemas`, closed Lean terms) are
+  well-formed (`generated_schemas_wf`, by kernel evaluation of the total check `wfb`), and the
+  fixpoint / idempotence / duplicate-key theorems instantiated at them. Content types with hand-written
   (de)serialisation stay under the T3 oracles only, see `props/C18.json`.
 
   Reading guide. `dispatch tbl e o`: the model of `serde_json::from_str::<e>` up to the choice of
@@ -698,6 +701,45 @@ example : getField [(bs "a", .int 1), (bs "b", .null), (bs "a", .int 2)] (bs "a"
 
 example : rawText (bs " \n{\"a\" : 1 }\t") = bs "{\"a\" : 1 }" := by rfl
 
+/-! ## The schemas of the real content types -/
+
+section Generated
+open Ruma.ContentSchema Ruma.Generated.C18
+
+/-- The total well-formedness check evaluates to `true` on every extracted description (kernel
+evaluation; regenerated and re-checked on every run). -/
+theorem generated_descs_wfb : descs.all (fun p => wfb p.2) = true := by decide +kernel
+
+/-- **Every schema extracted from the running code is well-formed**: the side condition `WF` of the
+fixpoint and duplicate-key theorems holds for each of the modelled content types' schemas, with the
+per-field facts probed on this very tree. -/
+theorem generated_schemas_wf : ∀ p ∈ schemas, WF p.2 := by
+  intro p hp
+  obtain ⟨q, hq, rfl⟩ := List.mem_map.mp hp
+  exact wfb_sound q.2 (List.all_eq_true.mp generated_descs_wfb q hq)
+
+/-- `roundtrip_fixpoint` at the real schemas: for every modelled content type and every JSON value,
+what serialise-after-deserialise yields is read back and written again unchanged. -/
+theorem generated_roundtrip_fixpoint : ∀ p ∈ schemas, ∀ j t : JVal,
+    project p.2 j = some t → project p.2 t = some t :=
+  fun p hp j t h => C18Schema.roundtrip_fixpoint p.2 (generated_schemas_wf p hp) j t h
+
+/-- `ser_deser_idempotent` at the real schemas. -/
+theorem generated_ser_deser_idempotent : ∀ p ∈ schemas, ∀ j : JVal,
+    (project p.2 j).bind (project p.2) = project p.2 j :=
+  fun p hp j => C18Schema.ser_deser_idempotent p.2 (generated_schemas_wf p hp) j
+
+/-- `ser_no_duplicate_keys` at the real schemas. -/
+theorem generated_ser_no_duplicate_keys : ∀ p ∈ schemas, ∀ j t : JVal,
+    project p.2 j = some t → NoDupKeys t :=
+  fun p hp j t h => C18Schema.ser_no_duplicate_keys p.2 (generated_schemas_wf p hp) j t h
+
+/-- The list is not empty and has one entry per modelled content type, under distinct names. -/
+example : schemas.length = schemaModelled ∧ 0 < schemaModelled := by decide +kernel
+example : (descs.map (·.1)).Nodup := by decide +kernel
+
+end Generated
+
 #print axioms dispatch_table_eq_spec
 #print axioms spec_table_wf
 #print axioms dispatch_total
@@ -729,6 +771,17 @@ example : rawText (bs " \n{\"a\" : 1 }\t") = bs "{\"a\" : 1 }" := by rfl
 #print axioms Ruma.Props.C18Schema.ser_no_duplicate_keys
 #print axioms Ruma.Props.C18Schema.present_values_preserved_partial
 #print axioms Ruma.Props.C18Schema.present_leaf_verbatim
+#print axioms Ruma.Props.C18Schema.str_verbatim_of
+#print axioms Ruma.Props.C18Schema.int_verbatim
+#print axioms Ruma.Props.C18Schema.bool_verbatim
+#print axioms Ruma.Props.C18Schema.leaves_verbatim
+#print axioms Ruma.Props.C18Schema.leaves_well_formed
+#print axioms Ruma.Props.C18Schema.wfb_decides_wf
+#print axioms generated_descs_wfb
+#print axioms generated_schemas_wf
+#print axioms generated_roundtrip_fixpoint
+#print axioms generated_ser_deser_idempotent
+#print axioms generated_ser_no_duplicate_keys
 #print axioms Ruma.Props.C18Schema.key_order_independent
 #print axioms Ruma.Props.C18Schema.unknown_fields_never_fail
 #print axioms Ruma.Props.C18Schema.unknown_fields_never_fail_catch_all
